@@ -131,7 +131,9 @@ def main(argv=None):
     viol, known_hits = [], {}
     for r in results:
         for v in r.get("violations", []):
-            fk = v.get("finding_key") or ("%s:%s" % (v.get("key", v.get("unit")), v.get("obligation")))
+            det = (v.get("detail") or "")
+            sig = ("raised " + det[7:].split(":")[0].split()[0]) if det.startswith("raised ") else (det.split(":")[0] if det[:1].isupper() and "Error" in det.split(":")[0] else "wrong-value")
+            fk = v.get("finding_key") or ("%s:%s:%s" % (v.get("key", v.get("unit")), v.get("obligation"), sig))
             v["finding_key"] = fk
             hit = [k for k in known if fnmatch.fnmatch(fk, k["key"])]
             if hit:
